@@ -15,24 +15,24 @@ from .base import contract, make_models, TxModels
 from .classes import message_classes
 
 VALIDATORS = {
-    'txdbus.marshal.validateObjectPath': ('p', G.OBJECT_PATH, 'path'),
-    'txdbus.marshal.validateInterfaceName': ('n', G.INTERFACE, 'interface'),
-    'txdbus.marshal.validateErrorName': ('n', G.ERROR, 'error'),
-    'txdbus.marshal.validateBusName': ('n', G.BUS, 'bus'),
-    'txdbus.marshal.validateMemberName': ('n', G.MEMBER, 'member'),
+    'txdbus.marshal.validateObjectPath': ('p', G.OBJECT_PATH, 'path', False),
+    'txdbus.marshal.validateInterfaceName': ('n', G.INTERFACE0, 'interface', True),
+    'txdbus.marshal.validateErrorName': ('n', G.INTERFACE0, 'error', True),
+    'txdbus.marshal.validateBusName': ('n', G.BUS0, 'bus', True),
+    'txdbus.marshal.validateMemberName': ('n', G.MEMBER0, 'member', True),
 }
 
 
 def add_validator_contracts(world):
     from txdbus.error import MarshallingError
-    for dotted, (pn, gram, kind) in VALIDATORS.items():
+    for dotted, (pn, gram, kind, bounded) in VALIDATORS.items():
         contract(world, dotted, {pn: STR},
-                 ensures=lambda cx, pn=pn, gram=gram: [('accepted-in-grammar', z3.InRe(cx.a(pn), gram))],
-                 raises={MarshallingError: lambda cx, pn=pn, gram=gram: z3.Not(z3.InRe(cx.a(pn), gram))})
+                 ensures=lambda cx, pn=pn, gram=gram, bounded=bounded: [('accepted-in-grammar', G.in_grammar(cx.a(pn), gram, bounded))],
+                 raises={MarshallingError: lambda cx, pn=pn, gram=gram, bounded=bounded: z3.Not(G.in_grammar(cx.a(pn), gram, bounded))})
 
 
-def opt_in(view, gram):
-    return z3.Or(view.none, z3.InRe(view.val.term, gram))
+def opt_in(view, gram, bounded=True):
+    return z3.Or(view.none, G.in_grammar(view.val.term, gram, bounded))
 
 
 def add_constructor_contracts(world, marshal_assumed=True):
@@ -53,17 +53,17 @@ def add_constructor_contracts(world, marshal_assumed=True):
              modifies=lambda cx: [(cx.args['self'], 'DBusMessage.' + f) for f in
                                   ('headers', 'bodyLength', 'serial', 'rawHeader', 'rawPadding', 'rawBody',
                                    'rawMessage', 'unix_fds', 'unix_fds?set')],
-             ensures=lambda cx: [('path-valid', opt_in(cx.new(cx.args['self']).path, G.OBJECT_PATH))],
+             ensures=lambda cx: [('path-valid', opt_in(cx.new(cx.args['self']).path, G.OBJECT_PATH, False))],
              raises={MarshallingError: lambda cx: z3.BoolVal(True), Exception: lambda cx: z3.BoolVal(True)},
              assumed=marshal_assumed, may_raise_any=True)
 
     def names_valid(cx):
         s = cx.new(cx.args['self'])
-        return [('path-valid', opt_in(s.path, G.OBJECT_PATH)),
-                ('interface-valid', opt_in(s.interface, G.INTERFACE)),
-                ('member-valid', opt_in(s.member, G.MEMBER)),
-                ('destination-valid', opt_in(s.destination, G.BUS)),
-                ('error-name-valid', opt_in(s.error_name, G.ERROR))]
+        return [('path-valid', opt_in(s.path, G.OBJECT_PATH, False)),
+                ('interface-valid', opt_in(s.interface, G.INTERFACE0)),
+                ('member-valid', opt_in(s.member, G.MEMBER0)),
+                ('destination-valid', opt_in(s.destination, G.BUS0)),
+                ('error-name-valid', opt_in(s.error_name, G.INTERFACE0))]
 
     def fields_set(*names):
         """the constructor stores its arguments (what later readers / the wire see)"""
@@ -118,7 +118,7 @@ def replay(function, clause, model):
     from txdbus import marshal, message
     from txdbus.error import MarshallingError
     if function in VALIDATORS:
-        pn, _, kind = VALIDATORS[function]
+        pn, _, kind, _b = VALIDATORS[function]
         s = model.get(pn)
         if not isinstance(s, str):
             return {'reproduced': False, 'detail': 'no string witness in model'}
